@@ -665,12 +665,15 @@ func ruleFinalWriteBackBranches(r *Run, rule string) {
 					}
 					// if/else at the top level of the loop body whose branches write the line
 					n := 0
-					for _, st := range rs.Body.List {
+					for si, st := range rs.Body.List {
 						is, ok := st.(*ast.IfStmt)
-						if !ok || is.Else == nil {
+						if !ok {
 							continue
 						}
 						writes := func(b ast.Node) bool {
+							if b == nil {
+								return false
+							}
 							return w.reaches(info, b, func(fn *types.Func) bool {
 								sig := fn.Type().(*types.Signature)
 								if sig.Recv() != nil && isCompType(sig.Recv().Type(), "LRUCache") && fn.Name() == "Write" {
@@ -694,8 +697,21 @@ func ruleFinalWriteBackBranches(r *Run, rule string) {
 								return stores
 							})
 						}
+						if !writes(is.Body) {
+							continue // not the routing of the write-back (e.g. the "not modified: skip" test)
+						}
 						n++
-						r.check(writes(is.Body) && writes(is.Else), rule, fmt.Sprintf("%s.%s:write-back-branches#%d", v.rel, declName(fd), n), is.Pos(), "both branches of the final write-back of a modified line write it (to the next level: %v; to memory: %v)", writes(is.Body), writes(is.Else))
+						other := false
+						if is.Else != nil {
+							other = writes(is.Else)
+						} else {
+							for _, nx := range rs.Body.List[si+1:] {
+								if writes(nx) {
+									other = true
+								}
+							}
+						}
+						r.check(other, rule, fmt.Sprintf("%s.%s:write-back-branches#%d", v.rel, declName(fd), n), is.Pos(), "both sides of the routing of the final write-back of a modified line write it (where the next level holds the line: true; otherwise: %v)", other)
 					}
 					return true
 				})
@@ -4302,6 +4318,7 @@ func ruleSnoopActsOnItsLevel(r *Run, rule string) {
 		// constant -> constructor that sends it
 		ctorOf := map[types.Object]*types.Func{}
 		ctors := map[*types.Func]bool{}
+		mixed := map[types.Object]bool{}
 		for _, f := range v.pkg.Syntax {
 			ast.Inspect(f, func(n ast.Node) bool {
 				call, ok := n.(*ast.CallExpr)
@@ -4321,6 +4338,9 @@ func ruleSnoopActsOnItsLevel(r *Run, rule string) {
 				}
 				if id, ok := ast.Unparen(call.Args[len(call.Args)-1]).(*ast.Ident); ok {
 					if c, ok := info.Uses[id].(*types.Const); ok {
+						if prev, seen := ctorOf[c]; seen && prev != fn {
+							mixed[c] = true
+						}
 						ctorOf[c] = fn
 						ctors[fn] = true
 					}
@@ -4330,6 +4350,14 @@ func ruleSnoopActsOnItsLevel(r *Run, rule string) {
 		}
 		if len(ctors) < 2 {
 			continue
+		}
+		var cs []types.Object
+		for c := range ctorOf {
+			cs = append(cs, c)
+		}
+		sort.Slice(cs, func(i, j int) bool { return cs[i].Name() < cs[j].Name() })
+		for _, c := range cs {
+			r.check(!mixed[c], rule, fmt.Sprintf("%s:command(%s):one-constructor", v.rel, c.Name()), c.Pos(), "every command of kind %s is built by one constructor (the constructor decides which level's state the completion invalidates)", c.Name())
 		}
 		// snoop dispatch cases
 		cacheOfCtor := map[*types.Func]map[*types.Var]bool{}
@@ -5077,6 +5105,102 @@ func ruleAccessOwnsItsBookkeeping(r *Run, rule string) {
 					sort.Strings(wrong)
 					r.check(len(wrong) == 0, rule, fmt.Sprintf("%s.%s:own-lock-table", v.rel, declName(fd)), fd.Pos(), "the lock handles the access forgets are deleted from a table the access records handles in (deleted from tables it never records in: %v)", wrong)
 				}
+			}
+		}
+	}
+}
+
+// ruleAccessTakesItsLock (R06.23): the entry of the READ coroutine of a cache controller asks the
+// coherence layer for the read lock, the entry of the WRITE coroutine for the write lock. The
+// kinds are read off the code: an access is a write if its request carries the bytes to store
+// (a []int8 field); a lock function is the write lock if one of its outcomes leaves the line in
+// the exclusive (highest) state.
+func ruleAccessTakesItsLock(r *Run, rule string) {
+	w := r.W
+	bind := w.coroutineBindings()
+	for _, v := range variants(w) {
+		if v.pkg == nil || !v.pipelined() || !usesLineLocks(w, v) {
+			continue
+		}
+		info := v.info
+		// the exclusive state: the largest constant of the const group the state switch uses
+		var exclusive types.Object
+		{
+			scope := v.pkg.Types.Scope()
+			for _, nm := range scope.Names() {
+				if c, ok := scope.Lookup(nm).(*types.Const); ok && strings.EqualFold(nm, "modified") {
+					exclusive = c
+				}
+			}
+		}
+		if exclusive == nil {
+			continue
+		}
+		lockKind := func(fn *types.Func) string {
+			fd, _ := w.FuncDecl(fn)
+			if fd == nil || fd.Body == nil {
+				return ""
+			}
+			kind := "read"
+			ast.Inspect(fd.Body, func(k ast.Node) bool {
+				if c, ok := k.(*ast.CallExpr); ok {
+					for _, a := range c.Args {
+						if id, ok := ast.Unparen(a).(*ast.Ident); ok && info.Uses[id] == exclusive {
+							if cf, ok := typeutil.Callee(info, c).(*types.Func); ok && strings.HasPrefix(strings.ToLower(cf.Name()), "set") && strings.HasSuffix(strings.ToLower(cf.Name()), "state") {
+								kind = "write"
+							}
+						}
+					}
+				}
+				return true
+			})
+			return kind
+		}
+		for fld, fns := range bind {
+			for _, fn := range fns {
+				if fn.Pkg() != v.pkg.Types {
+					continue
+				}
+				fd, _ := w.FuncDecl(fn)
+				if fd == nil || fd.Body == nil || fd.Type.Params == nil || len(fd.Type.Params.List) != 1 {
+					continue
+				}
+				// the access kind from the request type
+				pt := structOf(info.TypeOf(fd.Type.Params.List[0].Type))
+				if pt == nil {
+					continue
+				}
+				access := "read"
+				for i := 0; i < pt.NumFields(); i++ {
+					if typeName(pt.Field(i).Type()) == "[]int8" {
+						access = "write"
+					}
+				}
+				// the lock function called: returns (…, func(), *comp.Sem)
+				var called []*types.Func
+				ast.Inspect(fd.Body, func(k ast.Node) bool {
+					if c, ok := k.(*ast.CallExpr); ok {
+						if cf, ok := typeutil.Callee(info, c).(*types.Func); ok && cf.Pkg() == v.pkg.Types {
+							if sig := cf.Type().(*types.Signature); sig.Results().Len() == 3 && isCompType(sig.Results().At(2).Type(), "Sem") {
+								called = append(called, cf)
+							}
+						}
+					}
+					return true
+				})
+				if len(called) == 0 {
+					continue
+				}
+				good := true
+				var kinds []string
+				for _, cf := range called {
+					k := lockKind(cf)
+					kinds = append(kinds, cf.Name()+":"+k)
+					if k != access {
+						good = false
+					}
+				}
+				r.check(good, rule, fmt.Sprintf("%s.%s:lock-kind(%s)", v.rel, declName(fd), fld.Name()), fd.Pos(), "the %s access takes the %s lock of the line (lock functions called: %v)", access, access, kinds)
 			}
 		}
 	}
